@@ -1,25 +1,49 @@
-"""Setup-time self test: the interpreter must execute the templates concretely and agree with the native build."""
-import sys
+"""Setup-time self test: the interpreter executes the templates concretely on fixed and on pseudo-random argument
+vectors and must agree with the native build (complete summaries, accept/reject, panics)."""
+import sys, os, random
 from .session import Session, args_value, val_to_py
 from .check import same_outcome
+from .relational import pair_same_outcome
+from .program import Unsupported
 
 CASES = [('t_predefined', [4]), ('t_predefined', [8]),
          ('t_layout', [4, 2, 0, 0, 0, 0, 0, 0, 2, 0, 0, 0, 0, 0, 1, 0, 0, 0, 1, 8, 0, 0, 1]),
          ('t_layout', [8, 1, 1, 16, 1, 8, 0, 3, 4, 2, 1, 0, 0, 0, 1])]
+ARITY = {'t_layout': 23, 't_nest': 20, 't_enum': 17, 't_impl': 12, 't_vft': 24, 't_graph': 17, 't_scope': 11, 't_inherit': 17, 't_items': 7,
+         't_extern': 14, 't_odd': 9, 't_equiv': 15, 't_unrelated': 10, 't_modtype': 4}   # t_order_*: natively order-dependent (C09 known finding)
+PAIR = {'t_equiv', 't_unrelated', 't_modtype', 't_order_vft'}
+POOL = [0, 0, 0, 1, 1, 1, 2, 2, 3, 4, 4, 5, 6, 7, 8, 8, 12, 13, 16, 24, 32, 255, 256, 4096, -1, -2]
 
 
 def main():
+    seed = int(os.environ.get('VERIF_SEED', '0') or 0)
+    n_random = int(os.environ.get('VERIF_SELFTEST_N', '12'))
+    rng = random.Random(seed)
+    cases = list(CASES)
+    for t, k in ARITY.items():
+        for _ in range(n_random):
+            a = [rng.choice(POOL) for _ in range(k)]
+            a[0] = rng.choice([4, 8])
+            if t in ('t_layout',): a[1] = rng.choice([0, 1, 2])
+            if t in ('t_enum',): a[2] = rng.choice([1, 2, 3])
+            if t in ('t_vft', 't_graph'): a[1] = rng.choice([1, 2])
+            cases.append((t, a))
     S = Session()
-    I = S.interp()
-    bad = 0
-    for t, a in CASES:
-        leaf, _ = I.run_path(t, [args_value(a)], {})
+    I = S.interp(max_steps=60000)
+    bad = 0; unsup = 0
+    for t, a in cases:
+        try:
+            leaf, _ = I.run_path(t, [args_value(a)], {})
+        except Unsupported as e:
+            # a concrete run never needs a model the symbolic runs do not need; report, do not fail setup on exotic vectors
+            unsup += 1; print('selftest: unsupported on', t, a, str(e)[:160]); continue
         got = val_to_py(leaf.value) if leaf.kind == 'ret' else {leaf.kind: leaf.value}
-        nat = S.replay(t, a)
-        if not same_outcome(nat, got):
-            print('SELFTEST MISMATCH', t, a, got, nat); bad += 1
+        nat = S.replay_once(t, a, timeout=20)
+        ok = pair_same_outcome(nat, got) if t in PAIR else same_outcome(nat, got)
+        if not ok:
+            print('SELFTEST MISMATCH', t, a, str(got)[:300], '!=', str(nat)[:300]); bad += 1
     S.close()
-    print('selftest: %d cases, %d mismatches' % (len(CASES), bad))
+    print('selftest: %d cases, %d mismatches, %d unsupported' % (len(cases), bad, unsup))
     sys.exit(1 if bad else 0)
 
 
